@@ -285,11 +285,11 @@ DIMS = {
     'place': ['same', 'parent', 'global', 'sibling', 'shadow'],
     'extscope': ['global', 'split'],
     'spell': ['simple', 'partial', 'full'],
-    'nprov': [0, 1, 2, 3], 'nreq': [0, 1, 2, 3], 'ninj': [0, 1],
+    'nprov': [0, 1, 2, 3], 'nreq': [0, 1, 2, 3], 'ninj': [0, 1, 3],
     'share': [True, False],
     'menu': ['full', 'empty', 'inonly', 'outonly'],
     'evorder': ['grouped', 'interleaved', 'outsfirst', 'reversed'],
-    'names': ['plain', 'caps', 'under', 'evlike', 'pykw'],
+    'names': ['plain', 'caps', 'under', 'evlike', 'pykw', 'long'],
     'evnames': ['plain', 'acqfree', 'swapped', 'pykw'],
     'psem': ['MTS', 'STS'],
     'rsem': ['allmts', 'allsts', 'firstmts', 'firststs', 'lastmts', 'laststs'],
@@ -301,13 +301,20 @@ DIMS = {
     'prefix': ['', 'Other.Project'],
 }
 
-PORT_NAMES = {'plain': (['p', 'p2', 'p3'], ['r', 'r2', 'r3'], ['inj']),
-              'caps': (['Api', 'Api2', 'Api3'], ['Hal', 'Hal2', 'Hal3'], ['Inj']),
-              'under': (['_p1', '_p2', '_p3'], ['r_1', 'r_2', 'r_3'], ['i_n_j']),
+PORT_NAMES = {'plain': (['p', 'p2', 'p3'], ['r', 'r2', 'r3'], ['inj', 'inj2', 'inj3']),
+              'caps': (['Api', 'Api2', 'Api3'], ['Hal', 'Hal2', 'Hal3'], ['Inj', 'Inj2', 'Inj3']),
+              'under': (['_p1', '_p2', '_p3'], ['r_1', 'r_2', 'r_3'], ['i_n_j', 'i_n_j2', '_i3']),
               # ports named like events of their own interfaces
-              'evlike': (['V0', 'O2', 'Evt'], ['O0', 'Same', 'Claim'], ['BoolRet']),
+              'evlike': (['V0', 'O2', 'Evt'], ['O0', 'Same', 'Claim'], ['BoolRet', 'IntRet', 'Four']),
               # identifiers that are legal in Dezyne and C++ but keywords / builtins of Python
-              'pykw': (['is', 'None', 'from'], ['as', 'self', 'raise'], ['lambda'])}
+              'pykw': (['is', 'None', 'from'], ['as', 'self', 'raise'], ['lambda', 'def', 'elif']),
+              # long names: generated statements exceed any reasonable line width
+              'long': (['primaryTemperatureControlInterfacePortNumberOne', 'primaryTemperatureControlInterfacePortNumberTwo',
+                        'primaryTemperatureControlInterfacePortNumberThree'],
+                       ['secondaryHardwareAbstractionLayerPortNumberOne', 'secondaryHardwareAbstractionLayerPortNumberTwo',
+                        'secondaryHardwareAbstractionLayerPortNumberThree'],
+                       ['injectedConfigurationServicePortNumberOne', 'injectedConfigurationServicePortNumberTwo',
+                        'injectedConfigurationServicePortNumberThree'])}
 
 CLAIM_NAMES = {'plain': ('Claim', 'Release'), 'acqfree': ('Acquire', 'Free'), 'swapped': ('Release', 'Claim'),
                'pykw': ('yield', 'pass')}
@@ -323,6 +330,13 @@ def full_menu():
             # formal names related by substring; an out formal BEFORE in formals
             ['Four', 'in', ['Res'], [['value', ['T3'], 'in'], ['val', ['T2'], 'out'], ['lue', ['T1'], 'in'], ['v', ['T3'], 'inout']]],
             ['OutFirst', 'in', ['void'], [['status', ['T2'], 'out'], ['level', ['T1'], 'in']]],
+            # long event and formal names (the generated statements get longer than 120 columns)
+            ['MeasurementRequestedForChannelOfTheDevice', 'in', ['Res'],
+             [['firstMeasurementValueInMilliKelvin', ['T1'], 'in'], ['secondMeasurementValueInMilliKelvin', ['T2'], 'out'],
+              ['thirdMeasurementValueInMilliKelvin', ['T3'], 'inout'], ['fourthMeasurementValueInMilliKelvin', ['T1'], 'in']]],
+            ['MeasurementAvailableForChannelOfTheDevice', 'out', ['void'],
+             [['firstMeasurementValueInMilliKelvin', ['T1'], 'in'], ['secondMeasurementValueInMilliKelvin', ['T2'], 'in'],
+              ['thirdMeasurementValueInMilliKelvin', ['T3'], 'in'], ['fourthMeasurementValueInMilliKelvin', ['T1'], 'in']]],
             ['OFour', 'out', ['void'], [['total', ['T1'], 'in'], ['tot', ['T2'], 'in'], ['al', ['T3'], 'in'], ['t', ['T1'], 'in']]],
             ['IRef', 'in', ['bool'], [['a', ['T4'], 'in'], ['b', ['T2'], 'out']]],
             ['ORef', 'out', ['void'], [['a', ['T4'], 'in'], ['b', ['T1'], 'in']]],
